@@ -2,6 +2,7 @@ import OdcGeo.Drv.C14
 import OdcGeo.Model.C14Args
 import OdcGeo.Model.C14Ext
 import OdcGeo.Model.C14Thr
+import OdcGeo.Model.C14Zero
 namespace OdcGeo.C14.Drv
 open OdcGeo OdcGeo.IO OdcGeo.C14
 
@@ -151,6 +152,23 @@ def runExt (args : List String) : Option String :=
       let r := g.thrRun fl (sched ++ finish) ts []
       pure ("|".intercalate (r.1.map (fun t => fmtList fmtIdx (t.out.map (·.1)))) ++ " cache=" ++
         fmtList fmtIdx ((r.2.map (·.1)).eraseDups.mergeSort keyLe))
+  -- signed zeros: `loz sz origin originNegZero dir kValue kNegZero` → lower edge, upper edge (value + sign bit of a zero), bin(k)
+  | ["loz", sz, o, oz, dd, kv, kn] => do
+    let sz ← parseRat? sz; let o ← parseRat? o; let oz ← parseBool? oz; let dd ← parseInt? dd
+    let kv ← parseRat? kv; let kn ← parseBool? kn
+    pure (fmtRes (fun (b : Bin1D) =>
+      let k : SZ := ⟨kv, kn && decide (kv = 0)⟩
+      let l := b.loZ oz k; let h := b.hiZ oz k
+      s!"{fmtRat l.v} {fmtBool l.negz} {fmtRat h.v} {fmtBool h.negz} {b.binZ oz k}") (Bin1D.new sz o dd))
+  -- valid-region pipeline: the projected, densified ring as the library produced it → the query box
+  | ["vbox", pts] => do
+    let ps ← parseList? parsePt? pts
+    pure (match validRegionBox id (fun _ => ps) none with
+      | none => "ERR:ValueError"
+      | some q => fmtBBox q)
+  | ["shrunk", w, s, e, n] => do
+    let w ← parseRat? w; let s ← parseRat? s; let e ← parseRat? e; let n ← parseRat? n
+    pure (fmtList (fun (p : Rat × Rat) => s!"{fmtRat p.1};{fmtRat p.2}") (shrunkBox w s e n (1 / 20)))
   | ["dims", k] =>
     let kind := if k = "G" then some CrsKind.geographic else if k = "P" then some .projected else if k = "O" then some .otherKind else none
     kind.map (fun kd => fmtRes (fun (p : String × String) => s!"{p.1} {p.2}") (dimensions kd))
